@@ -109,6 +109,34 @@ def run(ctx):
                        "with is_dir=%s, path_is_symlink=%s the code performs %s; oracle: exactly %s (a symbolic link is removed itself, a directory with rmdir)" % (is_dir, is_link, got, want),
                        fn=f, how="event-graph truth table")
 
+    # "is the path itself a link" must be answered from an lstat whenever the entry's own type follows links
+    ps = ctx.fn("R2", C.M + "entry::WalkEntry::path_is_symlink")
+    if ps is not None:
+        def prole(t):
+            c = (t.callee or "").split("::<")[0]
+            if c == C.M + "entry::WalkEntry::follow":
+                return "follows?"
+            if c in ("std::path::Path::symlink_metadata", "std::fs::symlink_metadata"):
+                return "lstat"
+            if c == C.M + "entry::WalkEntry::file_type":
+                return "entry_type"
+            if c == "walkdir::DirEntry::path_is_symlink":
+                return "walkdir_answer"
+            if c in ("std::path::Path::metadata", "std::fs::metadata", "std::path::Path::is_symlink"):
+                return "other:" + c.split("::")[-1]
+            return None
+        def pbrole(fn_, bb, o):
+            ty = prim.discr_type_of_switch(fn_, bb) or ""
+            return "kind" if ty.endswith("entry::Entry") else None
+        g = C.G(prim.event_graph(ps, prole, branch_role=pbrole))
+        fq = g.nodes("follows?")
+        ok = len(fq) == 1 and [C.base(x) for x in g.succ(fq[0], "else")] == ["lstat"] and [C.base(x) for x in g.succ(fq[0], "0")] == ["entry_type"] and not [n for n in g.out if C.base(n).startswith("other:")]
+        kinds = g.nodes("kind")
+        ok = ok and len(kinds) == 1 and sorted(C.base(x) for x in g.succ(kinds[0])) == ["follows?", "walkdir_answer"]
+        ctx.ob("R2", "path_is_symlink-table", ok,
+               "WalkEntry::path_is_symlink decision: %s; oracle: walkdir-backed entry -> walkdir's own answer; explicit entry -> lstat of the path when the entry follows links (its file_type() is then the *target's* type), its own type otherwise. Answering from the followed type makes -delete rmdir() a starting-point link under -H/-L" % g.fmt(),
+               fn=ps, how="event graph == oracle")
+
     # ---- R3 failure path -------------------------------------------------------------------
     f = ctx.fn("R3", DELETE_MATCHES)
     if f is not None:
